@@ -275,6 +275,7 @@ type SchedJob struct {
 	Bound        int      `json:"bound"`
 	Fuel         int      `json:"fuel"`
 	MaxSchedules int      `json:"max_schedules"`
+	Trace        bool     `json:"trace"`
 	Goroutines   int      `json:"goroutines"`
 	Rounds       int      `json:"rounds"`
 }
